@@ -231,6 +231,12 @@ def validateArgs (m : KeyMode) (stop : Bool) (d : Option Data) (T : Option Table
   | some d, some T => validate hash verify m stop d T
   | _, _ => .invalidArguments
 
+/-- the entry point with all its pointer arguments: `nlriNull` is `data->nlri == NULL`, which the
+    repaired argument check refuses together with the other missing members (the current tree reads
+    `data->nlri->afi` unchecked: finding Fbgp4) -/
+def validateEntry (m : KeyMode) (stop : Bool) (d : Option Data) (nlriNull : Bool) (T : Option Table) : Rc :=
+  if nlriNull then .invalidArguments else validateArgs hash verify m stop d T
+
 end crypto
 
 /-! ## the code: signing -/
@@ -254,6 +260,10 @@ def generateSignature (d : Option Data) (key : Option (List Nat)) (outNull : Boo
         let sig := sign sk (hash (alignBytes .signing d))
         if sig.length < 1 then (.signingError, none) else (.success, some sig)
   | _, _ => (.invalidArguments, none)
+
+/-- `rtr_bgpsec_generate_signature` with `data->nlri == NULL` refused by the (repaired) argument check -/
+def generateEntry (d : Option Data) (nlriNull : Bool) (key : Option (List Nat)) (outNull : Bool) : Rc × Option (List Nat) :=
+  if nlriNull then (.invalidArguments, none) else generateSignature hash loadKey sign d key outNull
 
 end signing
 
